@@ -16,6 +16,7 @@ from tlexport.quic.quic_dissector import extract_quic_packet
 from tlexport.quic.quic_decode import QuicVersion
 from tlexport.quic.quic_output_builder import QUICOutputbuilder
 from ipaddress import IPv6Address, IPv4Address
+from tlexport import _verif
 
 
 PACKET_TYPE_MAP = {
@@ -152,6 +153,7 @@ class QuicSession:
             self.tls_session.new_data = False
         self.output_buffer.append(frame)
 
+    @_verif.traced("qframe", _verif.frame_before, _verif.frame_after)
     def handle_frame(self, frame: Frame):
         isserver = frame.src_packet.isserver
         # CRYPTO, STREAM,  NEW_CONNECTION_ID, CONNECTION_CLOSE
@@ -175,6 +177,7 @@ class QuicSession:
             case PseudoVersionNegotiationFrame():
                 self.output_buffer.append(frame)
 
+    @_verif.traced("qepoch", None, _verif.epoch_after)
     def check_key_epoch(self, key_phase_bit, isserver):
         if isserver:
             if self.last_key_phase_server != key_phase_bit:
@@ -189,6 +192,8 @@ class QuicSession:
                 self.decryptors["Application"]):
             new_decryptor = key_update(self.decryptors["Application"][-1], self.hash_fun, self.key_length, self.cipher, self.quic_version)
             self.decryptors["Application"].append(new_decryptor)
+            if _verif.on():
+                _verif.emit("keys", proto="quic", level="ku", keys=_verif.quic_keys(self))
 
     def decrypt_packet(self, quic_packet: type[QuicPacket]):
         decryptor: QuicDecryptor
@@ -356,7 +361,10 @@ class QuicSession:
 
         self.keys.update(keys)
         self.decryptors["Initial"] = dec
+        if _verif.on():
+            _verif.emit("keys", proto="quic", level="initial", dcid=dcid, chacha=chacha20, keys=_verif.quic_keys(self))
 
+    @_verif.traced("qpn", _verif.pn_before, _verif.pn_after)
     def get_full_packet_number(self, quic_packet: ShortQuicPacket | LongQuicPacket) -> bytes:
         if quic_packet.isserver:
             largest_pkn = self.packet_number_server[PACKET_TYPE_MAP[quic_packet.packet_type]]
@@ -469,6 +477,8 @@ class QuicSession:
             logging.info("Using Early Traffic Secrets")
         except:
             logging.warning("No Early Traffic Secrets")
+        if _verif.on():
+            _verif.emit("keys", proto="quic", level="tls", suite=ciphersuite, cr=client_random, keys=_verif.quic_keys(self))
 
     def binary_to_ip(self, ip_addr):
         if self.ipv6:
